@@ -1043,7 +1043,21 @@ func mapclear(t *maptype, h *hmap) {
 	// makeBucketArray clears the memory pointed to by h.buckets
 	// and recovers any overflow buckets by generating them
 	// as if h.buckets was newly alloced.
-	_, nextOverflow := makeBucketArray(t, h.B, h.buckets)
+	//
+	// A range loop that is still running keeps pointers into the bucket
+	// array (hiter.buckets, hiter.bptr). If that array were wiped and reused,
+	// the loop could follow the sentinel overflow pointer that makeBucketArray
+	// stores in the last preallocated overflow bucket into bucket 0, or sit in
+	// a preallocated overflow bucket that is handed out again to another
+	// chain, and produce an entry inserted after the clear twice. When an
+	// iterator may exist, give the map a fresh array instead; the old one has
+	// just been marked empty and is not written to any more.
+	dirtyalloc := h.buckets
+	if h.flags&(iterator|oldIterator) != 0 {
+		dirtyalloc = nil
+	}
+	var nextOverflow *bmap
+	h.buckets, nextOverflow = makeBucketArray(t, h.B, dirtyalloc)
 	if nextOverflow != nil {
 		// If overflow buckets are created then h.extra
 		// will have been allocated during initial bucket creation.
